@@ -64,6 +64,8 @@ pub fn mark_job_as_stopped(sh: &mut shell::Shell, gid: i32, report: bool) {
 }
 
 pub fn mark_job_member_stopped(sh: &mut shell::Shell, pid: i32, gid: i32, report: bool) {
+    #[cfg(cicada_verif)]
+    use crate::verif_hooks::libc_shim as libc;
     let _gid = if gid == 0 {
         unsafe { libc::getpgid(pid) }
     } else {
@@ -78,6 +80,8 @@ pub fn mark_job_member_stopped(sh: &mut shell::Shell, pid: i32, gid: i32, report
 }
 
 pub fn mark_job_member_continued(sh: &mut shell::Shell, pid: i32, gid: i32) {
+    #[cfg(cicada_verif)]
+    use crate::verif_hooks::libc_shim as libc;
     let _gid = if gid == 0 {
         unsafe { libc::getpgid(pid) }
     } else {
